@@ -113,6 +113,9 @@ def parse_errors(tree, msgs, parse_t=parse_t, strip=None):
         mm = re.match(r"value (\S+) can't be used: ", first)
         if mm:
             out.append(("DValueAccess", parse_t(mm.group(1)))); continue
+        mm = re.match(r"provider for (\S+) can't be used: uses unexported identifier", first)
+        if mm:
+            out.append(("DProvAccess", parse_t(mm.group(1)))); continue
         mm = re.match(r"provider has multiple parameters of type (\S+)$", first)
         if mm:
             out.append(("DItem", 1, parse_t(mm.group(1)))); continue
